@@ -57,9 +57,12 @@ async def start_server(
         log_file: Optional path to log file. If None, logs to stdout.
         json_logs: If True, output logs in JSON format.
         enable_rate_limiting: Enable rate limiting middleware.
-        rate_limit_config: Rate limiting configuration. Uses defaults if None.
-        access_control_config: Access control configuration. None to disable.
-        certificate_auth_config: Certificate auth configuration. None to disable.
+        rate_limit_config: Rate limiting configuration. If None, the settings of
+            config ([rate_limit]) apply.
+        access_control_config: Access control configuration. If None, the settings
+            of config ([access_control]) apply.
+        certificate_auth_config: Certificate auth configuration. If None, the
+            settings of config ([certificate_auth]) apply.
         hash_ips: Hash client IPs in logs. If None, uses config.hash_client_ips.
         max_file_size: Maximum file size to serve. If None, uses config.max_file_size.
 
@@ -93,6 +96,17 @@ async def start_server(
 
     # Validate configuration
     config.validate()
+
+    # The middleware settings of the configuration are the default: a server started
+    # as start_server(ServerConfig.from_toml(path)) enforces what the file says (the
+    # command line passes the same objects explicitly)
+    if access_control_config is None:
+        access_control_config = config.get_access_control_config()
+    if certificate_auth_config is None:
+        certificate_auth_config = config.get_certificate_auth_config()
+    if rate_limit_config is None:
+        rate_limit_config = config.get_rate_limit_config()
+        enable_rate_limiting = enable_rate_limiting and config.enable_rate_limiting
 
     # Resolve max_file_size from config if not explicitly set
     effective_max_file_size = (
